@@ -61,7 +61,8 @@ def norm_real(stderr, rc):
 def norm_model(line):
     if line.startswith("ok "):
         _, h, term = line.split(" ", 2)
-        text = bytes.fromhex("" if h == "-" else h).decode("utf-8", "replace")
+        # run_prog reads the real output in text mode (universal newlines): apply the same translation here
+        text = bytes.fromhex("" if h == "-" else h).decode("utf-8", "replace").replace("\r\n", "\n").replace("\r", "\n")
         if term.startswith("panic:"):
             m = term[6:]
             term = "panic:" + norm_panic(bytes.fromhex("" if m == "-" else m).decode("utf-8", "replace"))
